@@ -10,7 +10,7 @@ META = dict(
     technique="Coq proof (structural induction over payload trees, for every sys.modules environment) + differential "
               "correspondence with exception_to_python / TaskiqResult.model_validate(_json) on trap environments",
     level_text="Theorems C20_only_exceptions, C20_outcome (+ _plain), C20_illtyped(_iff), C20_unresolved, C20_nested (+ _refused, "
-               "_gate), C20_instantiated_reachable hold for the Gallina transcription `load` of exception_to_python (pydantic "
+               "_gate), C20_instantiated_reachable, C20_parametric_gate_is_model hold for the Gallina transcription `load` of exception_to_python (pydantic "
                "tree validation, sys.modules lookup, split('.')/getattr walk, isinstance/issubclass gate, the general Python call "
                "cls(*args) with its `except Exception` fallback, cause-then-context recursion, get_pickled_exception/restore, "
                "the before-validator wrapping of TaskiqResult) for every environment (any finite sys.modules with arbitrary "
